@@ -363,6 +363,11 @@ func (h *SexpHash) TypeCheckField(key Sexp, val Sexp) error {
 				if len(a.Val) == 0 {
 					return nil // okay
 				}
+				// an array whose element type cannot be told from its
+				// first element ([nil], [(list 1 2)]): not a value of
+				// the declared type
+				return fmt.Errorf("field %v.%v is %v, cannot assign '%v'",
+					p.UserStructDefn.Name, k, declaredTyp.RegisteredName, val.SexpString(nil))
 			case *SexpSentinel:
 				return nil // okay
 			default:
